@@ -83,6 +83,7 @@ type SolveOpts struct {
 	WorkDir string
 	Keep    bool
 	Retry   bool
+	NoRetry map[string]bool // obligations of open known findings: expected not to discharge
 }
 
 var reSafeName = regexp.MustCompile(`[^A-Za-z0-9_.\-]+`)
@@ -239,7 +240,7 @@ func solveAll(obls []*Obligation, opt SolveOpts, workers int) {
 	// (Under the parallel load of the first round a proof that needs a second or two can miss its slot.)
 	var again []int
 	for i, o := range obls {
-		if o.Status == "undecided" && !o.Cover {
+		if o.Status == "undecided" && !o.Cover && !opt.NoRetry[o.Name] {
 			again = append(again, i)
 		}
 	}
